@@ -206,3 +206,7 @@ func vfFileExists(name string) bool      { return false }
 func vfFileWrites(name string) int       { return 0 }
 func vfFileSet(name string, v any)       {}
 func vfFileJSON(name string, out any) bool { return false }
+
+// RPC decoder queue (engine only)
+func vfQueueDecode(v any)    {}
+func vfDecodeQueueLen() int  { return 0 }
